@@ -29,6 +29,9 @@ RULE = (
     "file-vs-directory keys, inserted in shuffled dict order; triples are biased towards one- or two-sided edits "
     "of the ancestor (add / remove / change per key) so that successes, conflicts, double removals and policy "
     "refusals all occur; policies: None, [] and every non-empty sublist of add/remove/change, some reordered. "
+    "the merge() stream draws its universe mostly from directory/sibling pairs whose name is the directory name "
+    "continued by a character below '/' (data/x with data.csv, p/raw/2021/f with p/raw-2020/f, a/f with 'a b', ...), on "
+    "which key-tuple order and canonical relpath-string order differ. "
     "quick: seeded samples of all streams + a sample of sweep rows; thorough: additionally on _merge ALL triples "
     "over 3 keys x (absent + 3 values) under add+remove+change (+ 2000 sampled rows under the other policies), ALL "
     "triples over 3 keys x (absent + 2 values) x 9 policies, ALL triples over 2 keys x (absent + 3 real values) x 9 "
@@ -48,15 +51,17 @@ ASSUMPTIONS = [
     "merge(): listings are planted as directory objects; an md5 store loads only {md5, relpath} records "
     "(HashInfo.from_dict rejects extra fields - ValueError, C20's subject), records with size/isexec are exercised "
     "through an md5-dos2unix store; a missing object is FileNotFoundError (model: LoadError), not judged",
-    "Tree.digest = md5 of the canonical JSON + '.dir' is Model/Listing.v (C03); here it is compared byte for byte "
-    "on every merged listing and re-computed independently (json + hashlib) by the oracle",
+    "Tree.digest = md5 of the canonical JSON + '.dir' is Model/Listing.v (C03, sorts by the relpath string); the model's "
+    "identifier is compared byte for byte with merge()'s on every merged listing, and the oracle re-computes the "
+    "identifier and the object bytes with the independent encoder lib.impl.canon_listing/dir_oid (sort by relpath "
+    "string, json.dumps, hashlib.md5) - never with Tree.digest of a rebuilt tree",
 ]
 
 IMPORTS = ("From Coq Require Import NArith List.\nFrom stdpp Require Import gmap.\n"
            "From DvcData Require Import Model.Merge Proofs.MergeDigest.")
 
 KEY_POOL = [("a",), ("d", "b"), ("d", "c"), ("d", "e", "f"), ("é",), ("d",), ("b c",), ("",), ("x", ""),
-            ("\U0001f600", "z")]
+            ("\U0001f600", "z"), ("d.c",), ("d", "e-f")]
 KIND = {"add": "KAdd", "remove": "KRemove", "change": "KChange"}
 POLS = [None, [], ["add"], ["remove"], ["change"], ["add", "remove"], ["add", "change"], ["remove", "change"],
         ["add", "remove", "change"]]
@@ -615,6 +620,31 @@ def sweep_rows(ctx, vals, ks, nopt, rows, tag):
 
 
 TREE_KEYS = [("a",), ("d", "b"), ("d", "c"), ("é", "f g"), ("d",), ("x", "")]
+# A directory next to a sibling whose name is the directory's name continued by a character below '/'
+# (space ! " # $ % & ' ( ) * + , - .): the order of the KEY TUPLES and the order of the joined relpath
+# strings differ on such pairs, and only the latter is the canonical order of a listing.
+TREE_SIBLINGS = [
+    (("data", "x"), ("data.csv",)),
+    (("p", "raw", "2021", "f"), ("p", "raw-2020", "f")),
+    (("a", "f"), ("a b",)),
+    (("img", "1.png"), ("img+meta.json",)),
+    (("d", "b"), ("d-e", "z")),
+    (("s", "t", "u"), ("s", "t!", "u")),
+    (("q", "r"), ("q#1",)),
+    (("é", "z"), ("é,", "y")),
+]
+
+
+def gen_tree_universe(rng):
+    r = rng.random()
+    if r < 0.35:
+        return rng.sample(TREE_KEYS, rng.randint(1, 4))
+    pairs = rng.sample(TREE_SIBLINGS, 1 if r < 0.8 else 2)
+    ks = [k for pr in pairs for k in pr]
+    extra = [k for k in TREE_KEYS if k not in ks and k != ("a",) and k != ("d",)]
+    ks += rng.sample(extra, rng.randint(0, 5 - len(ks)) if len(ks) < 5 else 0)
+    rng.shuffle(ks)
+    return ks
 
 
 def tree_tables(mode):
@@ -650,9 +680,10 @@ def run_tree_case(ctx, case):
     ks = [tuple(k) for k in case["keys"]]
     mode = case["mode"]
     table = tree_tables(mode)
-    root = ctx.fresh("merge")
-    store = os.path.join(root, "store")
-    os.makedirs(store)
+    # one store per mode for the whole run: objects are named by content, every case (re)plants the
+    # objects it uses, the identifiers of "missing" objects are never planted
+    store = os.path.join(ctx.tmpdir(), "c19-store-" + mode)
+    os.makedirs(store, exist_ok=True)
     odb = impl.local_odb(store, hash_name=mode)
     names = {}
     objs = {}  # identifier -> cells of the planted object
@@ -687,12 +718,17 @@ def run_tree_case(ctx, case):
                    False if meta is None else meta.isexec)
             got[key] = table.index(idt) if idt in table else 777
             bad_val = bad_val or idt not in table
-        res = ("ok", got, m.hash_info.value if m.hash_info else None, m.oid, m.hash_info.name if m.hash_info else None)
+        try:
+            with m.fs.open(m.path, "rb") as fobj:  # what a caller adds to the object store under m.oid
+                blob = fobj.read()
+        except Exception as exc:  # noqa: BLE001
+            blob = repr(exc).encode()
+        res = ("ok", got, m.hash_info.value if m.hash_info else None, m.oid, m.hash_info.name if m.hash_info else None,
+               blob)
     except MergeError:
         res = ("err", 6, "MergeError")
     except Exception as exc:  # noqa: BLE001
         res = ("err", impl.err_code(exc), type(exc).__name__)
-    impl.rm_rf(root)
     # ---- oracle
     problems = []
     a = dict_of(ks, case["a"]) if case["a"] is not None else {}
@@ -705,11 +741,26 @@ def run_tree_case(ctx, case):
         if res[0] == "ok":
             ref = merge3(a, o, t)
             if ref is not None:
-                want = impl.dir_oid([("/".join(k), table[c][0]) for k, c in ref.items()])
+                # independent canonical encoder (lib.impl: records sorted by the relpath STRING, json.dumps,
+                # md5) - nothing of Tree is used to compute what the identifier must be
+                entries = [("/".join(k), table[c][0]) for k, c in ref.items()]
+                want = impl.dir_oid(entries)
                 if res[2] != want or res[3] != want or res[4] != "md5":
                     problems.append(("C19:wrong-identifier",
                                      f"merged listing has identifier {res[4]}:{res[2]} (oid {res[3]}), the canonical "
                                      f"identifier of the three-way merge is md5:{want}"))
+                if res[5] != impl.canon_listing(entries):
+                    problems.append(("C19:non-canonical-object",
+                                     "the serialised object that comes with the merged tree (tree.fs/tree.path) is not the "
+                                     f"canonical listing of its content: {res[5][:300]!r}"))
+                # a merge whose result IS one of the stored inputs must return that object's identifier
+                for who in ("o", "t", "a"):
+                    if case[who] is not None and dict_of(ks, case[who]) == ref and names[who] == impl.dir_oid(entries) \
+                            and res[3] != names[who]:
+                        problems.append(("C19:fast-forward-renamed",
+                                         f"the merged listing equals the stored listing {names[who]} but is returned as "
+                                         f"{res[3]}"))
+                        break
     # ---- model input
     hexs = clist([cpair(cN(i), cbytes(table[i][0])) for i in range(len(table))])
     objs_t = clist([cpair(cbytes(oid), ccells(cells)) for oid, cells in objs.items()])
@@ -753,12 +804,32 @@ def tree_item(ctx, case):
     return (case, term, exp)
 
 
+TREE_CORPUS = [
+    # both sides add; the merged listing holds a directory and a sibling "<dir>." / "<dir>-" / "<dir> " / "<dir>+"
+    {"stream": "tree", "mode": "md5", "keys": [("data", "x"), ("data.csv",), ("a",)], "a": [0, 0, 1], "o": [1, 0, 1],
+     "t": [0, 2, 1], "pol": None},
+    {"stream": "tree", "mode": "md5", "keys": [("p", "raw", "2021", "f"), ("p", "raw-2020", "f")], "a": [0, 0],
+     "o": [1, 0], "t": [0, 2], "pol": []},
+    # fast-forward: ours untouched, the result is theirs and must keep their identifier
+    {"stream": "tree", "mode": "md5", "keys": [("a", "f"), ("a b",)], "a": [1, 0], "o": [1, 0], "t": [1, 3],
+     "pol": None},
+    {"stream": "tree", "mode": "md5-dos2unix", "keys": [("img", "1.png"), ("img+meta.json",), ("d", "c")],
+     "a": [1, 3, 4], "o": [2, 3, 4], "t": [1, 3, 0], "pol": ["change", "remove"]},
+    # no ancestor
+    {"stream": "tree", "mode": "md5", "keys": [("s", "t", "u"), ("s", "t!", "u")], "a": None, "o": [1, 0], "t": [0, 2],
+     "pol": ["add"]},
+]
+
+
 def stream_tree(ctx, n):
     items = []
+    for c in TREE_CORPUS:
+        items.append(tree_item(ctx, dict(c)))
+        items.append(tree_item(ctx, dict(c, o=c["t"], t=c["o"])))
     for _ in range(n):
         mode = ctx.rng.choice(["md5", "md5-dos2unix"])
         nv = len(tree_tables(mode))
-        ks = ctx.rng.sample(TREE_KEYS, ctx.rng.randint(1, 4))
+        ks = gen_tree_universe(ctx.rng)
         a, o, t = gen_triple(ctx.rng, len(ks), nv)
         case = {"stream": "tree", "mode": mode, "keys": ks, "a": a, "o": o, "t": t, "pol": gen_pol(ctx.rng, a, o, t),
                 "shuffle": ctx.rng.random() < 0.5}
@@ -776,7 +847,7 @@ def stream_tree(ctx, n):
 
 
 def tree_exhaustive(ctx):
-    ks = [("a",), ("d", "b")]
+    ks = [("d", "b"), ("d.c",)]  # tuple order d/b < d.c, canonical (relpath string) order d.c < d/b
     items = []
     cells = list(itertools.product(range(3), repeat=2))
     for a in cells:
@@ -804,13 +875,13 @@ def run(ctx):
     import time
     tm = {}
     t0 = time.time()
-    m_items = stream_merge(ctx, vals, ctx.n(700, 6000))
+    m_items = stream_merge(ctx, vals, ctx.n(600, 6000))
     n_merge_eval = ctx.evaluations
     ctx.obligation("oracle:_merge", oracle_ok(ctx),
                    f"{len(m_items)} triples x both orders on the real _merge judged by the independent per-key "
                    "three-way merge (result, error kind, symmetry, default policy, arguments untouched)")
-    d_items = stream_diff(ctx, vals, ctx.n(250, 1500))
-    p_items = stream_patch(ctx, vals, ctx.n(250, 1500))
+    d_items = stream_diff(ctx, vals, ctx.n(200, 1500))
+    p_items = stream_patch(ctx, vals, ctx.n(200, 1500))
     tm["py_merge_diff_patch"] = round(time.time() - t0, 2)
     t0 = time.time()
 
@@ -847,7 +918,7 @@ def run(ctx):
     tm["py_sweep"] = round(time.time() - t0, 2)
     t0 = time.time()
 
-    t_items = stream_tree(ctx, ctx.n(160, 1000))
+    t_items = stream_tree(ctx, ctx.n(130, 1000))
     if thorough:
         t_items += tree_exhaustive(ctx)
     ctx.obligation("oracle:merge-objects", oracle_ok(ctx),
@@ -856,7 +927,7 @@ def run(ctx):
 
     tm["py_tree"] = round(time.time() - t0, 2)
     t0 = time.time()
-    for name, ty, fn, items in (
+    streams = [
         ("merge", "merge_in", "run_merge", m_items),
         ("dictdiffer_diff", "diff_in", "run_diff", d_items),
         ("dictdiffer_patch", "patch_in", "run_patch", p_items),
@@ -864,11 +935,28 @@ def run(ctx):
         ("sweep_small", "sweep_in", "run_sweep", s3_items),
         ("sweep_values", "sweep_in", "run_sweep", s2_items),
         ("tree", "tree_in", "run_tree", t_items),
-    ):
-        if items:
-            t1 = time.time()
-            ctx.correspond(name, IMPORTS, ty, fn, items, shard={"tree": 120 if thorough else 40, "merge": 150}.get(name, 250))
-            tm["coq_" + name] = round(time.time() - t1, 2)
+    ]
+    streams = [x for x in streams if x[3]]
+    n_obl, n_vio = len(ctx.obligations), len(ctx.violations)
+
+    def one(x):
+        name, ty, fn, items = x
+        t1 = time.time()
+        ctx.correspond(name, IMPORTS, ty, fn, items, shard={"tree": 120 if thorough else 40, "merge": 150}.get(name, 250))
+        tm["coq_" + name] = round(time.time() - t1, 2)
+
+    if thorough:
+        for x in streams:  # each stream already saturates the workers
+            one(x)
+    else:
+        from concurrent.futures import ThreadPoolExecutor
+
+        with ThreadPoolExecutor(max_workers=len(streams)) as ex:
+            list(ex.map(one, streams))
+        # the streams finished in any order: restore a fixed order of what they recorded
+        rank = {"correspondence:" + x[0]: i for i, x in enumerate(streams)}
+        ctx.obligations[n_obl:] = sorted(ctx.obligations[n_obl:], key=lambda o: rank.get(o[0], 99))
+        ctx.violations[n_vio:] = sorted(ctx.violations[n_vio:], key=lambda v: rank.get(v.signature, 99))
     tm["coq"] = round(time.time() - t0, 2)
     ctx.extra["timing_s"] = tm
     ctx.extra["streams"] = {"diff": len(d_items), "patch": len(p_items), "merge": len(m_items),
